@@ -139,6 +139,18 @@ def generate(ctx):
         case['ops'] = pre + ops[k:]
         case['route'], case['prefix'], case['fam'] = 'sql', len(pre), 'loaded'
         yield case
+    # D only: equality filters on REAL, STRING and BOOLEAN attributes mean `==` (no tolerance, no rendering): values that
+    # agree in six decimals, in letter case or after strip() are different values; 2 and 2.0 are the same value
+    rr = ctx.rng.fork('values')
+    pools = {'real': [0.1, 0.1000002, 0.0, 1e-9, -1e-9, 2.0, 2, 123456.7890001, 123456.7890004, 1e20, 1e20 + 65536.0, -0.0, 0.5],
+             'string': ['a', 'A', 'a ', ' a', '', 'ab', 'a\n', '0', 'None'],
+             'boolean': [True, False]}
+    for i in range(ctx.pick(150, 2000)):
+        r = rr.fork(i)
+        ty = r.choice(['real', 'real', 'string', 'boolean'])
+        vals = [r.choice(pools[ty]) for _ in range(r.randint(2, 7))]
+        yield {'fam': 'values', 'shape': 'values', 'type': ty, 'vals': vals, 'probe': [r.choice(pools[ty]) for _ in range(4)],
+               'ops': [], 'queries': [], 'attrs': []}
 
 
 def _case(r, ctx, names):
@@ -413,7 +425,34 @@ def expected(rel, q):
     return dedup(seq) if q[0] == 'nav-many' else (seq[0] if seq else Sym('none'))
 
 
+def _run_values(case):
+    m = _x.MetaModel()
+    m.define_class('V', [('X', case['type']), ('N', 'integer')])
+    insts = [m.new('V', X=v, N=n) for n, v in enumerate(case['vals'])]
+    fails = []
+    for pv in case['probe']:
+        want = [n for n, v in enumerate(case['vals']) if v == pv]
+        forms = {'where_eq': lambda: m.select_many('V', _x.where_eq(X=pv)), 'dict': lambda: m.select_many('V', {'X': pv}),
+                 'lambda': lambda: m.select_many('V', lambda sel: sel.X == pv),
+                 'metaclass.query': lambda: m.find_metaclass('V').query({'X': pv}),
+                 'navigate filter': lambda: _x.navigate_many(insts)(_x.where_eq(X=pv)),
+                 'select_any': lambda: [i for i in [m.select_any('V', _x.where_eq(X=pv))] if i is not None]}
+        for name, f in sorted(forms.items()):
+            try:
+                got = [i.N for i in f()]
+            except Exception as e:
+                got = 'raised %s' % type(e).__name__
+            w = want[:1] if name == 'select_any' else want
+            if got != w:
+                fails.append({'sig': 'query-value-equality', 'what': '%s for X == %r over the %s values %r returned the instances %r, '
+                              'equal are %r' % (name, pv, case['type'], case['vals'], got, w)})
+    return {'obs': [], 'd_fail': fails[:3], 'nontrivial': True, 'key': 'values/%r/%r/%r' % (case['type'], case['vals'], case['probe']),
+            'stats': {'fam_values': 1}, 'model_line': None}
+
+
 def run_impl(case):
+    if case.get('fam') == 'values':
+        return _run_values(case)
     schema = SHAPES[case['shape']]
     # unique identifiers over the plain attributes: the library records but never enforces them, so states
     # with duplicate identifier values are reachable and queries must still return every match
